@@ -13,29 +13,31 @@ structure Padded (buf : Buf) (len : Nat) : Prop where
   x0 : buf[len]? = some 120
   q : buf[len + 1]? = some 34
 
-/-- what the decoder keeps true of its buffer `mem` (the text was `buf`): the reader `src` is ahead of the writer `dst`, and
-    nothing at or behind the reader — and nothing in front of the literal — has been written -/
-structure Inv (buf mem : Buf) (sdst src dst : Nat) : Prop where
+/-- what the decoder keeps true of its buffer `mem` (`buf` = the padded text as it was before any decoding, `mem0` = the buffer
+    when this run started: earlier runs may have rewritten literals in front of this one): the reader `src` is ahead of the
+    writer `dst`, nothing at or behind the reader has been written since the text was copied, nothing in front of the literal
+    has been written by this run -/
+structure Inv (buf mem0 mem : Buf) (sdst src dst : Nat) : Prop where
   size : mem.size = buf.size
   lo : sdst ≤ dst
   hi : dst ≤ src
   ag : ∀ k, src ≤ k → mem[k]? = buf[k]?
-  pre : ∀ k, k < sdst → mem[k]? = buf[k]?
+  pre : ∀ k, k < sdst → mem[k]? = mem0[k]?
 
 /-- `acc` = what has been decoded so far, `v` = what the scalar decoder says from the reader on -/
-def Post (buf : Buf) (sdst : Nat) (acc : List UInt8) (v : Option (List UInt8 × Nat)) : Res → Prop
+def Post (buf mem0 : Buf) (sdst : Nat) (acc : List UInt8) (v : Option (List UInt8 × Nat)) : Res → Prop
   | .ok mem' cnt e => ∃ tail, v = some (tail, e) ∧ bytes mem' sdst (sdst + cnt) = acc ++ tail ∧ mem'.size = buf.size ∧
-        (∀ k, k < sdst ∨ e ≤ k → mem'[k]? = buf[k]?)
+        (∀ k, k < sdst → mem'[k]? = mem0[k]?) ∧ (∀ k, e ≤ k → mem'[k]? = buf[k]?)
   | .err _ => v = none
   | .fault => False
   | .fuel => False
 
-theorem Post_map (buf : Buf) (sdst : Nat) (acc m : List UInt8) (v : Option (List UInt8 × Nat)) (r : Res)
-    (h : Post buf sdst (acc ++ m) v r) : Post buf sdst acc (v.map (fun x => (m ++ x.1, x.2))) r := by
+theorem Post_map (buf mem0 : Buf) (sdst : Nat) (acc m : List UInt8) (v : Option (List UInt8 × Nat)) (r : Res)
+    (h : Post buf mem0 sdst (acc ++ m) v r) : Post buf mem0 sdst acc (v.map (fun x => (m ++ x.1, x.2))) r := by
   cases r with
   | ok mem' cnt e =>
-    obtain ⟨tail, hv, hb, hs, hf⟩ := h
-    exact ⟨m ++ tail, by rw [hv]; rfl, by rw [hb, List.append_assoc], hs, hf⟩
+    obtain ⟨tail, hv, hb, hs, hf, hg⟩ := h
+    exact ⟨m ++ tail, by rw [hv]; rfl, by rw [hb, List.append_assoc], hs, hf, hg⟩
   | err c => simp only [Post] at h ⊢; rw [h]; rfl
   | fault => exact h
   | fuel => exact h
@@ -201,11 +203,11 @@ theorem tab_zero_iff (e : UInt8) : ((escapedTab[e.toNat]?.getD 0) == 0) = !(esca
   cases h : (escapedTab[e.toNat]?.getD 0 == 0) <;> simp [bne, h]
 
 /-- **the escape loop and the find-and-move loop on a padded buffer** -/
-theorem loops_spec (lossy : Bool) (buf : Buf) (len sdst : Nat) (hp : Padded buf len) : ∀ f,
-    (∀ mem b dst, Inv buf mem sdst b dst → buf[b]? = some 92 → b ≤ len + 1 → 2 * (len + 2 - b) + 1 ≤ f →
-        Post buf sdst (bytes mem sdst dst) (decodeFrom lossy buf b).view (esc lossy f mem sdst b dst)) ∧
-    (∀ mem src dst, Inv buf mem sdst src dst → src ≤ len + 1 → 2 * (len + 2 - src) + 2 ≤ f →
-        Post buf sdst (bytes mem sdst dst) (decodeFrom lossy buf src).view (mv lossy f mem sdst src dst)) := by
+theorem loops_spec (lossy : Bool) (buf mem0 : Buf) (len sdst : Nat) (hp : Padded buf len) : ∀ f,
+    (∀ mem b dst, Inv buf mem0 mem sdst b dst → buf[b]? = some 92 → b ≤ len + 1 → 2 * (len + 2 - b) + 1 ≤ f →
+        Post buf mem0 sdst (bytes mem sdst dst) (decodeFrom lossy buf b).view (esc lossy f mem sdst b dst)) ∧
+    (∀ mem src dst, Inv buf mem0 mem sdst src dst → src ≤ len + 1 → 2 * (len + 2 - src) + 2 ≤ f →
+        Post buf mem0 sdst (bytes mem sdst dst) (decodeFrom lossy buf src).view (mv lossy f mem sdst src dst)) := by
   intro f
   induction f with
   | zero =>
@@ -215,8 +217,8 @@ theorem loops_spec (lossy : Bool) (buf : Buf) (len sdst : Nat) (hp : Padded buf 
   | succ f ih =>
     obtain ⟨ihE, ihM⟩ := ih
     -- what follows an escape: again an escape, or the find-and-move loop
-    have cont : ∀ mem' s d, Inv buf mem' sdst s d → s ≤ len + 1 → 2 * (len + 2 - s) + 2 ≤ f →
-        Post buf sdst (bytes mem' sdst d) (decodeFrom lossy buf s).view
+    have cont : ∀ mem' s d, Inv buf mem0 mem' sdst s d → s ≤ len + 1 → 2 * (len + 2 - s) + 2 ≤ f →
+        Post buf mem0 sdst (bytes mem' sdst d) (decodeFrom lossy buf s).view
           (match mem'[s]? with
            | none => Res.fault
            | some c => if c == 92 then esc lossy f mem' sdst s d else mv lossy f mem' sdst s d) := by
@@ -257,7 +259,7 @@ theorem loops_spec (lossy : Bool) (buf : Buf) (len sdst : Nat) (hp : Padded buf 
             have hdl : dst + (codepointToUtf8 cp).length ≤ mem.size := by
               have := hinv.hi; rw [hinv.size]; omega
             simp only [hdl, if_true]
-            have hinv' : Inv buf (wr mem dst (codepointToUtf8 cp)) sdst j (dst + (codepointToUtf8 cp).length) := by
+            have hinv' : Inv buf mem0 (wr mem dst (codepointToUtf8 cp)) sdst j (dst + (codepointToUtf8 cp).length) := by
               refine ⟨by rw [wr_size]; exact hinv.size, by have := hinv.lo; omega, by have := hinv.hi; omega, ?_, ?_⟩
               · intro k hk
                 rw [wr_out _ mem dst k (Or.inr (by have := hinv.hi; omega))]
@@ -267,7 +269,7 @@ theorem loops_spec (lossy : Bool) (buf : Buf) (len sdst : Nat) (hp : Padded buf 
                 exact hinv.pre k hk
             have := cont _ j _ hinv' hj2 (by omega)
             rw [wr_acc mem sdst dst _ hinv.lo hdl] at this
-            exact Post_map buf sdst _ _ _ _ this
+            exact Post_map buf mem0 sdst _ _ _ _ this
       · simp only [hu, Bool.false_eq_true, if_false]
         have hd : dst < mem.size := by have := hinv.hi; rw [hinv.size]; omega
         simp only [hd, if_true]
@@ -280,7 +282,7 @@ theorem loops_spec (lossy : Bool) (buf : Buf) (len sdst : Nat) (hp : Padded buf 
           simp only [ht, ht0, Bool.false_eq_true, if_false, if_true]
           have hwr : mem.setIfInBounds dst t = wr mem dst [t] := rfl
           have hdl : dst + [t].length ≤ mem.size := by simp; omega
-          have hinv' : Inv buf (wr mem dst [t]) sdst (b + 2) (dst + 1) := by
+          have hinv' : Inv buf mem0 (wr mem dst [t]) sdst (b + 2) (dst + 1) := by
             refine ⟨by rw [wr_size]; exact hinv.size, by have := hinv.lo; omega, by have := hinv.hi; omega, ?_, ?_⟩
             · intro k hk
               rw [wr_out _ mem dst k (Or.inr (by have := hinv.hi; simp; omega))]
@@ -293,7 +295,7 @@ theorem loops_spec (lossy : Bool) (buf : Buf) (len sdst : Nat) (hp : Padded buf 
           have hacc := wr_acc mem sdst dst [t] hinv.lo hdl
           simp only [List.length_cons, List.length_nil, Nat.zero_add] at hacc
           rw [hacc] at this
-          exact Post_map buf sdst _ _ _ _ this
+          exact Post_map buf mem0 sdst _ _ _ _ this
         · have ht0 : (t == 0) = true := by
             cases h0 : (t == 0) with
             | true => rfl
@@ -338,7 +340,7 @@ theorem loops_spec (lossy : Bool) (buf : Buf) (len sdst : Nat) (hp : Padded buf 
           (by rw [hinv.ag q q1]; exact hcq1)
         rw [hcw]
         simp only [Post]
-        refine ⟨bytes buf src q, bv2 hqf.2 hqf.1, ?_, by rw [hms]; exact hinv.size, ?_⟩
+        refine ⟨bytes buf src q, bv2 hqf.2 hqf.1, ?_, by rw [hms]; exact hinv.size, ?_, ?_⟩
         · have hlo := hinv.lo
           have hhi := hinv.hi
           rw [show sdst + (dst + (q - src) - sdst) = dst + (q - src) by omega,
@@ -348,10 +350,10 @@ theorem loops_spec (lossy : Bool) (buf : Buf) (len sdst : Nat) (hp : Padded buf 
           · exact bytes_ext _ _ _ _ (fun k hk _ => hinv.ag k hk)
         · intro k hk
           have hlo := hinv.lo
+          rw [hfr k (Or.inl (by omega))]; exact hinv.pre k hk
+        · intro k hk
           have hhi := hinv.hi
-          rcases hk with hk | hk
-          · rw [hfr k (Or.inl (by omega))]; exact hinv.pre k hk
-          · rw [hfr k (Or.inr (by omega))]; exact hinv.ag k (by omega)
+          rw [hfr k (Or.inr (by omega))]; exact hinv.ag k (by omega)
       · simp only [hqf, if_false]
         by_cases huq : u < q
         · simp only [huq, if_true, Post]
@@ -371,7 +373,7 @@ theorem loops_spec (lossy : Bool) (buf : Buf) (len sdst : Nat) (hp : Padded buf 
             simp only
             have hlo := hinv.lo
             have hhi := hinv.hi
-            have hinv' : Inv buf mem' sdst b (dst + (b - src)) := by
+            have hinv' : Inv buf mem0 mem' sdst b (dst + (b - src)) := by
               refine ⟨by rw [hms]; exact hinv.size, by omega, by omega, ?_, ?_⟩
               · intro k hk
                 rw [hfr k (Or.inr (by omega))]; exact hinv.ag k (by omega)
@@ -385,7 +387,7 @@ theorem loops_spec (lossy : Bool) (buf : Buf) (len sdst : Nat) (hp : Padded buf 
               · exact bytes_ext _ _ _ _ (fun k hk _ => hinv.ag k hk)
             rw [hacc] at this
             rw [hview]
-            exact Post_map buf sdst _ _ _ _ this
+            exact Post_map buf mem0 sdst _ _ _ _ this
           · -- neither in this block: 32 bytes are stored at `dst`
             simp only [hbq, not_false_eq_true, if_true]
             have hview := bv4 huq hnq hbq
@@ -412,7 +414,7 @@ theorem loops_spec (lossy : Bool) (buf : Buf) (len sdst : Nat) (hp : Padded buf 
             rw [bytes_ext mem buf src (src + 32) (fun k hk _ => hinv.ag k hk)]
             have hlen : (bytes buf src (src + 32)).length = 32 := by
               rw [bytes_length buf src (src + 32) (by omega) h32]; omega
-            have hinv' : Inv buf (wr mem dst (bytes buf src (src + 32))) sdst (src + 32) (dst + 32) := by
+            have hinv' : Inv buf mem0 (wr mem dst (bytes buf src (src + 32))) sdst (src + 32) (dst + 32) := by
               refine ⟨by rw [wr_size]; exact hinv.size, by omega, by omega, ?_, ?_⟩
               · intro k hk
                 rw [wr_out _ mem dst k (Or.inr (by rw [hlen]; omega))]; exact hinv.ag k (by omega)
@@ -423,12 +425,14 @@ theorem loops_spec (lossy : Bool) (buf : Buf) (len sdst : Nat) (hp : Padded buf 
             rw [hlen] at hacc
             rw [hacc] at this
             rw [hview]
-            exact Post_map buf sdst _ _ _ _ this
+            exact Post_map buf mem0 sdst _ _ _ _ this
 
-/-- **the first loop (nothing written yet) on a padded buffer** -/
-theorem scan_spec (lossy : Bool) (buf : Buf) (len sdst : Nat) (hp : Padded buf len) : ∀ f src, sdst ≤ src → src ≤ len + 1 →
+/-- **the first loop (nothing written yet) on a padded buffer**; `mem0` = the buffer as earlier decoder runs left it: the same
+    size as the padded text `buf` and equal to it from the start of this literal on -/
+theorem scan_spec (lossy : Bool) (buf mem0 : Buf) (len sdst : Nat) (hp : Padded buf len) (h0 : mem0.size = buf.size)
+    (hag : ∀ k, sdst ≤ k → mem0[k]? = buf[k]?) : ∀ f src, sdst ≤ src → src ≤ len + 1 →
     2 * (len + 2 - src) + 3 ≤ f →
-    Post buf sdst (bytes buf sdst src) (decodeFrom lossy buf src).view (scan lossy f buf sdst src) := by
+    Post buf mem0 sdst (bytes buf sdst src) (decodeFrom lossy buf src).view (scan lossy f mem0 sdst src) := by
   intro f
   induction f with
   | zero => intro src _ _ hf; omega
@@ -437,7 +441,12 @@ theorem scan_spec (lossy : Bool) (buf : Buf) (len sdst : Nat) (hp : Padded buf l
     have hsz := hp.size
     have h32 : src + 32 ≤ buf.size := by omega
     unfold scan
-    simp only [h32, if_true]
+    have h32m : src + 32 ≤ mem0.size := by rw [h0]; exact h32
+    simp only [h32m, if_true]
+    have hag' : ∀ k, src ≤ k → mem0[k]? = buf[k]? := fun k hk => hag k (by omega)
+    rw [findP_congr (· == 34) mem0 buf h0 32 src (src + 32) (by omega) hag',
+      findP_congr (· == 92) mem0 buf h0 32 src (src + 32) (by omega) hag',
+      findP_congr isCtl mem0 buf h0 32 src (src + 32) (by omega) hag']
     obtain ⟨bv1, bv2, bv3, bv4⟩ := block_view lossy buf src h32
     obtain ⟨q1, q2, q3, q4⟩ := findP_spec (· == 34) buf 32 src (src + 32) (by omega) (by omega) h32
     obtain ⟨b1, b2, b3, b4⟩ := findP_spec (· == 92) buf 32 src (src + 32) (by omega) (by omega) h32
@@ -455,8 +464,8 @@ theorem scan_spec (lossy : Bool) (buf : Buf) (len sdst : Nat) (hp : Padded buf l
       simp at hc2
     by_cases hqf : q < b ∧ ¬ (u < q)
     · simp only [hqf, not_false_eq_true, and_self, if_true, Post]
-      refine ⟨bytes buf src q, bv2 hqf.2 hqf.1, ?_, trivial, fun _ _ => trivial⟩
-      rw [show sdst + (q - sdst) = q by omega]
+      refine ⟨bytes buf src q, bv2 hqf.2 hqf.1, ?_, h0, fun _ _ => trivial, fun k hk => hag k (by omega)⟩
+      rw [show sdst + (q - sdst) = q by omega, bytes_ext mem0 buf sdst q (fun k hk _ => hag k hk)]
       exact bytes_append buf sdst src q hss q1 (by omega)
     · simp only [hqf, if_false]
       by_cases huq : u < q
@@ -468,11 +477,11 @@ theorem scan_spec (lossy : Bool) (buf : Buf) (len sdst : Nat) (hp : Padded buf l
         · simp only [hbq, if_true]
           obtain ⟨hb92, hsb, hview⟩ := bv3 huq hbq
           have hble : b ≤ len := hqb b hsb hbq
-          have hinv : Inv buf buf sdst b b := ⟨rfl, by omega, Nat.le_refl _, fun _ _ => rfl, fun _ _ => rfl⟩
-          have := (loops_spec lossy buf len sdst hp f).1 buf b b hinv hb92 (by omega) (by omega)
-          rw [bytes_append buf sdst src b hss hsb (by omega)] at this
+          have hinv : Inv buf mem0 mem0 sdst b b := ⟨h0, by omega, Nat.le_refl _, fun k hk => hag k (by omega), fun _ _ => rfl⟩
+          have := (loops_spec lossy buf mem0 len sdst hp f).1 mem0 b b hinv hb92 (by omega) (by omega)
+          rw [bytes_ext mem0 buf sdst b (fun k hk _ => hag k hk), bytes_append buf sdst src b hss hsb (by omega)] at this
           rw [hview]
-          exact Post_map buf sdst _ _ _ _ this
+          exact Post_map buf mem0 sdst _ _ _ _ this
         · simp only [hbq, if_false]
           have hview := bv4 huq hnq hbq
           have hq32 : q = src + 32 := by
@@ -493,7 +502,7 @@ theorem scan_spec (lossy : Bool) (buf : Buf) (len sdst : Nat) (hp : Padded buf l
           have := ih (src + 32) (by omega) hs32 (by omega)
           rw [bytes_append buf sdst src (src + 32) hss (by omega) h32] at this
           rw [hview]
-          exact Post_map buf sdst _ _ _ _ this
+          exact Post_map buf mem0 sdst _ _ _ _ this
 
 def padTail : Buf := #[120, 34, 120] ++ Array.replicate 61 (0 : UInt8)
 theorem padTail_size : padTail.size = 64 := by decide
@@ -507,31 +516,40 @@ theorem padded_pad (t : Buf) : Padded (pad t) t.size := by
   · rw [hpad, Array.getElem?_append_right (Nat.le_refl _), Nat.sub_self]; exact padTail_0
   · rw [hpad, Array.getElem?_append_right (by omega), show t.size + 1 - t.size = 1 by omega]; exact padTail_1
 
-/-- **`parse_string_inplace` on the padded copy of a text**: no load or store outside the buffer, termination, and — against
-    the specification's reading of that buffer — the decoded bytes, the end of the literal, and an unchanged buffer in
-    front of the literal and from the reader's final position on -/
-theorem run_spec (lossy : Bool) (t : Buf) (i : Nat) (hi : i ≤ t.size) :
-    Post (pad t) i [] (Spec.stringS lossy (pad t) i) (run lossy (pad t) i) := by
+/-- **`parse_string_inplace` on the padded copy of a text, after any earlier decoder runs**: `mem0` is ANY buffer of the size
+    of the padded copy that equals it from `i` on — as the buffer is when the literals in front of `i` have been decoded in
+    place.  No load or store outside the buffer, termination, and — against the specification's reading of the ORIGINAL
+    padded text — the decoded bytes, the end of the literal, nothing changed in front of the literal, and the original text
+    from the reader's final position on -/
+theorem run_spec_mem (lossy : Bool) (t mem0 : Buf) (i : Nat) (hi : i ≤ t.size) (h0 : mem0.size = (pad t).size)
+    (hag : ∀ k, i ≤ k → mem0[k]? = (pad t)[k]?) :
+    Post (pad t) mem0 i [] (Spec.stringS lossy (pad t) i) (run lossy mem0 i) := by
   have hp := padded_pad t
-  generalize pad t = buf at hp ⊢
+  generalize pad t = buf at hp h0 hag ⊢
   unfold run
-  have := scan_spec lossy buf t.size i hp (3 * buf.size + 8) i (Nat.le_refl _) (by omega) (by rw [hp.size]; omega)
+  have := scan_spec lossy buf mem0 t.size i hp h0 hag (3 * mem0.size + 8) i (Nat.le_refl _) (by omega) (by rw [h0, hp.size]; omega)
   rw [bytes_self, decode_correct] at this
   exact this
 
+/-- … in particular on the padded copy itself -/
+theorem run_spec (lossy : Bool) (t : Buf) (i : Nat) (hi : i ≤ t.size) :
+    Post (pad t) (pad t) i [] (Spec.stringS lossy (pad t) i) (run lossy (pad t) i) :=
+  run_spec_mem lossy t (pad t) i hi rfl (fun _ _ => rfl)
+
 /-- `Post` spelled out for a whole literal (`acc = []`) -/
-theorem Post_unpack (buf : Buf) (i : Nat) (v : Option (List UInt8 × Nat)) (r : Res) : Post buf i [] v r →
+theorem Post_unpack (buf mem0 : Buf) (i : Nat) (v : Option (List UInt8 × Nat)) (r : Res) : Post buf mem0 i [] v r →
     match r with
     | .ok mem cnt e =>
-      ∃ bs, v = some (bs, e) ∧ bytes mem i (i + cnt) = bs ∧ mem.size = buf.size ∧ ∀ k, k < i ∨ e ≤ k → mem[k]? = buf[k]?
+      ∃ bs, v = some (bs, e) ∧ bytes mem i (i + cnt) = bs ∧ mem.size = buf.size ∧
+        (∀ k, k < i → mem[k]? = mem0[k]?) ∧ (∀ k, e ≤ k → mem[k]? = buf[k]?)
     | .err _ => v = none
     | .fault => False
     | .fuel => False := by
   intro h
   cases r with
   | ok mem cnt e =>
-    obtain ⟨tail, h1, h2, h3, h4⟩ := h
-    exact ⟨tail, h1, by simpa using h2, h3, h4⟩
+    obtain ⟨tail, h1, h2, h3, h4, h5⟩ := h
+    exact ⟨tail, h1, by simpa using h2, h3, h4, h5⟩
   | err c => exact h
   | fault => exact h
   | fuel => exact h
